@@ -289,4 +289,10 @@ def rule_ext(ctx, M, trait_suffix, method, family_trait_method, rule):
         ok = ok and len(calls) == 1 and any(t[0] == "call" and t[3] == s.block for _, _, _, t in rets)
         ctx.check(ok, rule, b.def_, "%s(self, other) = %s((self, other)), operands in order" % (method, family_trait_method), site=b.span,
                   sample={"arg": short(a) if a else None})
+    # what `x.<method>(..)` means: no inherent method of that name anywhere in the crate (it would win method resolution
+    # over the extension trait), and nobody takes a by-value combinator apart to rebuild another one from its parts
+    from . import common
+    common.rule_no_shadow(ctx, M, {method}, rule, "extension-trait")
+    ok_, control = common.rule_children_stay(ctx, M, rule)
+    ctx.require(control >= 1 or M.config == "core", "positive control of the move-out audit (no by-value field move found in any crate type)")
     return found
